@@ -41,7 +41,7 @@ def mandatory_bins(tier):
     b += ["key_trailing_zero_%d" % z for z in (1, 2, 3, 15)]
     b += ["crc_lo_00:cust", "crc_hi_00:cust", "crc_both_00:cust", "crc_lo_00:update", "crc_hi_00:update", "crc_both_00:update",
           "decryptors_all", "decryptors_single", "decryptors_partial", "pass_through_block", "encrypted_config_component", "customer_key_present", "customer_key_absent",
-          "version_00", "version_ff", "version_80", "code_all_zero", "code_ends_00", "config_blob_trailing_zero_padding", "key_all_zero", "ecc_distractor_decryptors_before_the_matching_one", "ecc_distractor_encryptors_on_write"]
+          "version_00", "version_ff", "version_80", "code_all_zero", "code_ends_00", "config_blob_trailing_zero_padding", "key_all_zero", "ecc_distractor_decryptors_before_the_matching_one", "ecc_distractor_encryptors_on_write", "second_write_after_replacing_a_block_of_the_same_kind"]
     return b
 
 
@@ -155,6 +155,27 @@ def check_case(ns, ctx, case, conf, key, specs, subsets):
         d = G.diff_file(back.bf3file, mcase)
         if d:
             ctx.violation("content_differs:" + d[0].split("[")[0], {"diff": d}, dict(rp, subset=sorted(subset)))
+    # ---- history: the SAME Bec2File object, one block replaced by another of the same kind, same encryptor list ----
+    upd = [i for i, s in enumerate(specs) if s["kind"] == "update"]
+    if upd:
+        i = upd[0]
+        specs2 = [dict(s) for s in specs]
+        specs2[i]["version"] = (specs[i]["version"] + 0x81) % 256
+        if len(case.comps) % 2:
+            specs2[i]["code"] = bytes((b ^ 0x55) for b in specs[i]["code"])
+        f.add_auth_block(B.UpdateAuthBlock(specs2[i]["code"], specs2[i]["version"]))
+        ctx.ev()
+        ctx.bin("second_write_after_replacing_a_block_of_the_same_kind")
+        try:
+            buf2 = io.StringIO()
+            f.write_file(buf2, wenc)
+            back = B.Bec2File.read_file(io.StringIO(buf2.getvalue()), GB.read_encryptors(ns, specs2), True)
+            got = [block_attrs(b, ns) for b in back.auth_blocks.values()]
+            want = [{"cust": ("cust", 1), "ecc": ("ecc", 3, s.get("sel")), "update": ("update", 2, s.get("code"), s.get("version"))}[s["kind"]] for s in specs2]
+            if sorted(map(repr, got)) != sorted(map(repr, want)) or bytes(back.session_key) != key:
+                ctx.violation("second_write_after_block_replacement_reads_back_stale_or_wrong_blocks", {"got": got, "expected": want}, rp)
+        except Exception as e:
+            ctx.violation("second_write_after_block_replacement_not_readable", {"exc": fmt_exc(e)}, rp)
 
 
 def classify_exc(e):
